@@ -15,6 +15,7 @@ import Fir.Generated.Sizes
 import Fir.Generated.CropF64
 import Fir.Model.View
 import Fir.Model.CropF64
+import Fir.Proofs.ViewExactLemmas
 
 namespace Fir.C04
 open Fir.Gen
@@ -145,5 +146,23 @@ example : image_slice_size 2147483648 2147483648 4 = 18446744073709551615 := by 
 example : cropCheck (xfOps id) 4 4 (XF.fin 1) (XF.fin 0) (XF.fin (5/2)) (XF.fin 4) = 0 := by decide +kernel
 example : cropCheck (xfOps id) 4 4 XF.nan (XF.fin 0) (XF.fin 1) (XF.fin 1) = 1 := by decide +kernel
 example : cropCheck (xfOps id) 4 4 (XF.fin (-1)) (XF.fin 0) (XF.fin 1) (XF.fin 1) = 1 := by decide +kernel
+
+/-! ### what an accepted view exposes -/
+
+/-- an accepted (well-formed: every crop passed `check_crop_box`, every typed view fits its buffer) view of
+    non-zero width exposes, from any start row, exactly `height - start` rows of exactly `width` pixels -
+    for every nesting depth of cropped views -/
+theorem accepted_view_rows (v : View) (hwf : v.wf = true) (hw : 0 < v.width) (s : Nat) :
+    (v.rows s).length = v.height - s ∧ ∀ row ∈ v.rows s, row.length = v.width :=
+  Fir.Proofs.wf_rows_exact v hwf hw s
+
+/-- and every pixel it exposes is a pixel its parent exposes: nothing outside the underlying image -/
+theorem accepted_view_inside_parent (inner : View) (l t w h s : Nat) (q : Nat)
+    (hq : q ∈ ((View.crop inner l t w h).rows s).flatten) : q ∈ (inner.rows 0).flatten :=
+  Fir.Proofs.crop_rows_subset inner l t w h s q hq
+
+example : (View.crop (View.typed 0 5 4 20) 1 1 3 2).wf = true ∧
+    (View.crop (View.typed 0 5 4 20) 1 1 3 2).rows 0 = [[6, 7, 8], [11, 12, 13]] := by decide
+
 
 end Fir.C04
